@@ -1,0 +1,82 @@
+//go:build verif
+
+// Machine-checked contracts for govc (see /verif/DESIGN.md). Comments only;
+// compiled only with the build tag "verif".
+
+package oauth2
+
+// ---- C05: the assertions a token has to satisfy ----
+
+// configured expectations take precedence, field by field, over the ones merged in
+//@ func (Expectation).Merge
+//@   props C05
+//@   logged merge
+//@   modifies nothing
+//@   ensures len(e.TrustedIssuers) != 0 ==> ret0.TrustedIssuers == e.TrustedIssuers
+//@   ensures len(e.TrustedIssuers) == 0 ==> ret0.TrustedIssuers == other.TrustedIssuers
+//@   ensures e.ScopesMatcher != nil ==> ret0.ScopesMatcher == e.ScopesMatcher
+//@   ensures e.ScopesMatcher == nil ==> ret0.ScopesMatcher == other.ScopesMatcher
+//@   ensures len(e.Audiences) != 0 ==> ret0.Audiences == e.Audiences
+//@   ensures len(e.Audiences) == 0 ==> ret0.Audiences == other.Audiences
+//@   ensures len(e.AllowedAlgorithms) != 0 ==> ret0.AllowedAlgorithms == e.AllowedAlgorithms
+//@   ensures len(e.AllowedAlgorithms) == 0 ==> ret0.AllowedAlgorithms == other.AllowedAlgorithms
+//@   ensures e.ValidityLeeway != 0 ==> ret0.ValidityLeeway == e.ValidityLeeway
+//@   ensures e.ValidityLeeway == 0 ==> ret0.ValidityLeeway == other.ValidityLeeway
+
+// allowed <=> listed
+//@ func (Expectation).AssertAlgorithm
+//@   props C05
+//@   logged aalg
+//@   modifies nothing
+//@   ensures ret0 == nil <==> exists i int :: 0 <= i && i < len(e.AllowedAlgorithms) && old(e.AllowedAlgorithms[i]) == alg
+
+// trusted <=> listed
+//@ func (Expectation).AssertIssuer
+//@   props C05
+//@   logged aiss
+//@   modifies nothing
+//@   ensures ret0 == nil <==> exists i int :: 0 <= i && i < len(e.TrustedIssuers) && old(e.TrustedIssuers[i]) == issuer
+
+//@ func (Expectation).AssertAudience
+//@   props C05
+//@   modifies nothing
+//@   logged aaud
+//@   ensures len(e.Audiences) == 0 ==> ret0 == nil
+
+// inside the validity period, within the leeway (10 s unless configured)
+//@ spec leewaySec(e Expectation) int = f2i(secondsOf(ite(e.ValidityLeeway != 0, e.ValidityLeeway, 10000000000)))
+//@ func (Expectation).AssertValidity
+//@   props C05
+//@   modifies nothing
+//@   logged aval
+//@   ensures tnow.n == old(tnow.n) + 1
+//@   ensures ret0 == nil <==> !(unixOf(notBefore) > 0 && unixOf(tnow.ret0[old(tnow.n)]) + leewaySec(e) < unixOf(notBefore)) && !(unixOf(notAfter) > 0 && unixOf(tnow.ret0[old(tnow.n)]) - leewaySec(e) >= unixOf(notAfter))
+
+//@ func (Expectation).AssertIssuanceTime
+//@   props C05
+//@   modifies nothing
+//@   logged aiat
+
+//@ func (Expectation).AssertScopes
+//@   props C05
+//@   modifies nothing
+//@   logged ascp
+
+// a token's claims are valid only if issuer, audience, validity period, issuance time and scopes
+// were all asserted - under the expectation given - and none failed
+//@ func (Claims).Validate
+//@   props C05
+//@   logged cval
+//@   modifies nothing
+//@   ensures ret0 == nil ==> aiss.n == old(aiss.n) + 1 && aiss.arg0[old(aiss.n)] == exp && aiss.arg1[old(aiss.n)] == c.Issuer && aiss.ret0[old(aiss.n)] == nil
+//@   ensures ret0 == nil ==> aaud.n == old(aaud.n) + 1 && aaud.arg0[old(aaud.n)] == exp && aaud.arg1[old(aaud.n)] == c.Audience && aaud.ret0[old(aaud.n)] == nil
+//@   ensures ret0 == nil ==> aval.n == old(aval.n) + 1 && aval.arg0[old(aval.n)] == exp && aval.ret0[old(aval.n)] == nil
+//@   ensures ret0 == nil ==> aiat.n == old(aiat.n) + 1 && aiat.arg0[old(aiat.n)] == exp && aiat.ret0[old(aiat.n)] == nil
+//@   ensures ret0 == nil ==> ascp.n == old(ascp.n) + 1 && ascp.arg0[old(ascp.n)] == exp && ascp.ret0[old(ascp.n)] == nil
+//@   ensures ret0 == nil && len(c.Scp) != 0 ==> ascp.arg1[old(ascp.n)] == c.Scp
+//@   ensures ret0 == nil && len(c.Scp) == 0 ==> ascp.arg1[old(ascp.n)] == c.Scope
+
+// scope matchers only read
+//@ iface (ScopesMatcher).Match
+//@   props C05
+//@   modifies nothing
